@@ -59,8 +59,51 @@ def cases(tier, seed):
         for t in tables.table_zoo(tier):
             if t[4] <= 300 and t[0] <= 4:
                 out.append((t, cfg, seed, 'refit'))
+    # integer-typed constant columns whose value no float64 holds exactly (nanosecond time stamps, large ids)
+    for cfg in ('default', 'gaussian-class', 'kde-instance'):
+        out.append((('special', 'bigint-constants'), cfg, seed))
     out.sort(key=lambda c: c[1] not in ('default', 'kde-instance', 'dict'))
     return out
+
+
+def _bigint_constants(r, case):
+    import pandas as pd
+    _, cfg, seed = case[:3]
+    n = 25
+    x = stats.norm(3.0, 2.0).ppf(A.midpoints(n))
+    big, neg = 1700000000123456789, -(2 ** 53 + 1)
+    df = pd.DataFrame({'x': x, 'stamp': np.full(n, big, dtype=np.int64), 'y': x[::-1] ** 2,
+                       'id': np.full(n, neg, dtype=np.int64), 'seven': np.full(n, 7, dtype=np.int32)})
+    tag = f'table with int64 constant columns {big} and {neg}, config {cfg}'
+    r.state(('bigint', cfg))
+    r.nontriv()
+    r.tr()
+    try:
+        gm = tables.fit_gm(df, cfg)
+    except Exception as e:
+        r.violation(f'C01:fit-raises:{type(e).__name__}', f'{tag}: fit raised {type(e).__name__}: {e}', case=case)
+        return r
+    for rows, sd in ((1, None), (6, 3)):
+        gm.set_random_state(sd)
+        np.random.seed(5)
+        r.tr()
+        r.ev()
+        try:
+            out = gm.sample(rows)
+        except Exception as e:
+            r.violation(f'C01:sample-raises:{type(e).__name__}', f'{tag}: sample({rows}) raised {type(e).__name__}: {e}', case=case)
+            return r
+        if list(out.columns) != list(df.columns) or len(out) != rows:
+            r.violation('C01:schema', f'{tag}: sample({rows}) has columns {list(out.columns)} and {len(out)} rows', case=case)
+            return r
+        for c, val in (('stamp', big), ('id', neg), ('seven', 7)):
+            got = [int(v) if float(v) == int(v) else v for v in out[c].tolist()]
+            if got != [val] * rows:
+                r.violation('C01:constant-column', f'{tag}: constant training column {c!r} (= {val}) is sampled as '
+                            f'{out[c].tolist()[:3]} (dtype {out[c].dtype})', case=case)
+    r.hit('bigint-constants')
+    r['sample'] = {'kind': 'integer constants beyond 2**53', 'config': cfg}
+    return r
 
 
 def sqrt_psd(C):
@@ -79,6 +122,8 @@ def run_case(case):
     t, cfg, seed = case[:3]
     hist = case[3] if len(case) > 3 else 'fresh'
     r = engine.new_result()
+    if t[0] == 'special':
+        return _bigint_constants(r, case)
     r.state((t, cfg, hist))
     r.nontriv()
     df, info = tables.gaussian_copula_table(t, A.shift_from_seed(seed))
